@@ -736,6 +736,11 @@ def b_round(interp, args, kwargs, node):
         p = args[1]
     if node is not None and len(getattr(node, 'args', [])) > 1 and is_internal_precision(node):
         return x          # assumption A2: rounding to the internal precision is exact
+    from .npmodel import NpArr
+    if isinstance(x, NpArr):
+        # T3: the builtin round() is not defined for numpy arrays
+        raise Raised('TypeError', getattr(node, 'lineno', None), "type numpy.ndarray doesn't define __round__ method",
+                     implicit=True)
     return round_value(interp, x, p, node)
 
 
